@@ -65,6 +65,8 @@ type Exec struct {
 	coverDone   map[string]bool
 	curSite     string
 	loadBound   *Term
+	inSpec      bool
+	entryLocks  map[string]string
 }
 
 type assignLoc struct {
@@ -776,6 +778,7 @@ func (x *Exec) step(s *State, fr *Frame, in ssa.Instruction) error {
 		}
 		switch in.Op {
 		case token.MUL: // load
+			x.curSite = oname("load")[len("load:"):]
 			elem := in.X.Type().Underlying().(*types.Pointer).Elem()
 			lv := x.lvalueOf(a, elem)
 			if a.LV == nil {
@@ -1101,7 +1104,28 @@ func (x *Exec) step(s *State, fr *Frame, in ssa.Instruction) error {
 		return x.next(s, fr, in)
 	case *ssa.Go:
 		return &abortPath{"go statement in " + x.fnName(fr.fn)}
-	case *ssa.Send, *ssa.Select:
+	case *ssa.Select:
+		// channel readiness is not modelled: any listed case (or the default) may be chosen and
+		// received values are arbitrary well-typed values
+		idx := Var(x.eng.fresh("sel$idx$"+in.Name()), SInt)
+		lo := IntLit(0)
+		if !in.Blocking {
+			lo = IntLit(-1)
+		}
+		s.assume(And(ILe(lo, idx), ILt(idx, IntLit(int64(len(in.States))))))
+		tup := []Val{tv(x.fromInt(idx, types.Typ[types.Int]), types.Typ[types.Int]), tv(Var(x.eng.fresh("sel$ok$"+in.Name()), SBool), types.Typ[types.Bool])}
+		for _, st := range in.States {
+			if st.Dir == types.RecvOnly {
+				et := st.Chan.Type().Underlying().(*types.Chan).Elem()
+				v := Var(x.eng.fresh("sel$recv$"+in.Name()), x.sortOf(et))
+				x.assumeTyped(s, v, et)
+				tup = append(tup, tv(v, et))
+			}
+		}
+		fr.vals[in] = Val{Tup: tup, GoT: in.Type()}
+		x.eng.warn("select statement in %s: channel readiness abstracted (any case may fire)", x.fnName(fr.fn))
+		return nil
+	case *ssa.Send:
 		return &abortPath{"channel operation in " + x.fnName(fr.fn)}
 	case *ssa.SliceToArrayPointer:
 		return fmt.Errorf("slice to array pointer")
